@@ -126,6 +126,11 @@ func siblingIndexOf(p *Program) *siblingIndex {
 		if (fn.Origin() != nil && fn.Origin() != fn) || fn.Blocks == nil {
 			continue
 		}
+		if fn.Parent() != nil {
+			// closures are compared through the function that creates them (they are looked through
+			// and expanded there); their ordinal names are not stable under restructuring
+			continue
+		}
 		pk := relPkg(fnPkgPath(fn))
 		if !libPkg(pk) {
 			continue
@@ -300,7 +305,11 @@ func vocabOf(fn *ssa.Function, opaque func(callee *ssa.Function) bool) map[strin
 	home := fnPkgPath(fn)
 	var visit func(f *ssa.Function, depth int)
 	record := func(cc *ssa.CallCommon) {
-		out[normSibling(descCallee(calleeOf(cc)))] = true
+		cl := calleeOf(cc)
+		if cl.Name == "Set" {
+			return // x.Set(&y) and x = y are the same statement
+		}
+		out[normSibling(descCallee(cl))] = true
 	}
 	visit = func(f *ssa.Function, depth int) {
 		if f == nil || seen[f] || depth > 6 {
@@ -336,7 +345,7 @@ func vocabOf(fn *ssa.Function, opaque func(callee *ssa.Function) bool) map[strin
 						continue // assembly stub: the Go/assembly split is C09's subject, not a difference between siblings
 					}
 					if fnPkgPath(callee) == home {
-						if callsNothing(callee) || opaque(callee) {
+						if callee.Parent() == nil && (callsNothing(callee) || opaque(callee)) {
 							record(cc)
 						} else {
 							visit(callee, depth+1)
@@ -398,9 +407,15 @@ func callsNothing(f *ssa.Function) bool {
 			case *ssa.MakeClosure:
 				r = false
 			case ssa.CallInstruction:
-				if _, ok := x.Common().Value.(*ssa.Builtin); !ok {
-					r = false
+				if _, ok := x.Common().Value.(*ssa.Builtin); ok {
+					continue
 				}
+				// calls into the standard library (math/bits, ...) do not make a helper a composite
+				// of module operations
+				if sc := x.Common().StaticCallee(); sc != nil && !strings.HasPrefix(fnPkgPath(sc), modPath) {
+					continue
+				}
+				r = false
 			}
 		}
 	}
@@ -408,7 +423,9 @@ func callsNothing(f *ssa.Function) bool {
 	return r
 }
 
-var reStmtShape = regexp.MustCompile(`^(ok|not|noerr) ([A-Za-z_][\w./]*)\(`)
+// only validation predicates count as guards: a success check of a computation (noerr MultiExp)
+// says nothing about the independent statements a maintainer may move across it
+var reStmtShape = regexp.MustCompile(`^(ok|not) ([A-Za-z_][\w./]*)\(`)
 
 // guardedOps: on the inlined view of fn, for every operation of the module that fn calls (the
 // functions expanded in the view excluded), the checks that dominate EVERY call of it, as pairs
@@ -428,16 +445,48 @@ func guardedOps(fn *ssa.Function, opaque func(*ssa.Function) bool) map[string]bo
 	per := map[string]map[string]bool{}
 	condMemo := map[*ivNode][]string{}
 	for _, x := range v.Instrs() {
-		ci, ok := x.in.(ssa.CallInstruction)
-		if !ok || v.Inlined(x) {
-			continue
-		}
-		cc := ci.Common()
-		if _, isB := cc.Value.(*ssa.Builtin); isB {
-			continue
-		}
 		name := ""
-		if cc.IsInvoke() {
+		if st, isStore := x.in.(*ssa.Store); isStore {
+			// a store into memory the caller sees (receiver, parameter, captured variable, a slice
+			// made here and handed out): hoisting it above the check that guarded it changes the result
+			for _, r := range v.Roots(st.Addr, x.fr) {
+				// (cells of captured variables are followed to what they hold; a by-value copy of a
+				// struct is not the caller's memory: only reference-typed roots count)
+				visible := false
+				if (r.Kind == "param" || r.Kind == "free") && r.Val != nil && isPtrLikeType(r.Val.Type()) {
+					visible = true
+				}
+				if _, isMake := r.Val.(*ssa.MakeSlice); isMake {
+					visible = true
+				}
+				if visible && r.Path != "" {
+					root := "made"
+					if r.Kind == "param" {
+						root = "p" + paramIndex(r.Param)
+					} else if r.Kind == "free" {
+						root = "free"
+					}
+					name = "store " + root + r.Path
+				}
+			}
+			if name == "" {
+				continue
+			}
+		}
+		ci, ok := x.in.(ssa.CallInstruction)
+		if name == "" && (!ok || v.Inlined(x)) {
+			continue
+		}
+		var cc *ssa.CallCommon
+		if name == "" {
+			cc = ci.Common()
+			if _, isB := cc.Value.(*ssa.Builtin); isB {
+				continue
+			}
+		}
+		if name != "" {
+			// store: name already set
+		} else if cc.IsInvoke() {
 			name = descCallee(calleeOf(cc))
 		} else if sc := cc.StaticCallee(); sc != nil && fnPkgPath(sc) != "math/bits" {
 			// (math/bits primitives are the limb arithmetic itself: where they sit follows the carry
